@@ -206,7 +206,27 @@ void *calloc(size_t n, size_t sz)
 /* ---- ghost attributes of the (<= 3) streams ---- */
 int g_s_meta[3];                      /* stream_metadata answers non-NULL */
 int g_s_part[3];                      /* ovni.part: 0 absent, 1 "thread", 2 "cpu", 3 "threads" */
-int g_s_hasname[3]; char g_s_name[3][2];   /* ovni.loom: one character */
+/* loom names: NUL-terminated strings of <= G1_NLEN characters in 4-byte buffers (G1_NLEN is 3 where the
+ * group is about names -- find_loom, create_loom -- so that names sharing a prefix occur; 1 elsewhere) */
+#ifndef G1_NLEN
+#if defined(H_FIND_LOOM) || defined(H_CREATE_LOOM)
+#define G1_NLEN 3
+#else
+#define G1_NLEN 1
+#endif
+#endif
+#define G1_NB 4
+/* equality of the WHOLE strings (SPECIFICATION side; both in 4-byte buffers with [3] == NUL) */
+#define NAME_EQ(x, y) ((x)[0] == (y)[0] && ((x)[0] == '\0' || ((x)[1] == (y)[1] && ((x)[1] == '\0' || ((x)[2] == (y)[2] && ((x)[2] == '\0' || (x)[3] == (y)[3]))))))
+static void g1_any_name(char *nm, int may_be_empty)
+{
+	char c0 = nondet_char(); if (!may_be_empty) __CPROVER_assume(c0 != '\0');
+	nm[0] = c0; nm[1] = '\0'; nm[2] = '\0'; nm[3] = '\0';
+#if G1_NLEN >= 2
+	if (c0 != '\0') { nm[1] = nondet_char(); if (nm[1] != '\0') nm[2] = nondet_char(); }
+#endif
+}
+int g_s_hasname[3]; char g_s_name[3][G1_NB];   /* ovni.loom: <= G1_NLEN characters */
 int g_s_pid[3], g_s_tid[3];           /* what the pid / tid getters answer (negative = error) */
 static char jv_meta[3];
 JSON_Object *stream_metadata(struct stream *s) { int i = sidx(s); return g_s_meta[i] ? (JSON_Object *) &jv_meta[i] : NULL; }
@@ -228,20 +248,37 @@ void *stream_data_get(struct stream *s) { return s->data; }
 struct g1_rec r_loom_init_begin, r_loom_load_md, r_loom_find_proc, r_loom_add_proc;
 struct g1_rec r_proc_init_begin, r_proc_load_md, r_proc_find_thread, r_proc_add_thread;
 struct g1_rec r_thread_init_begin, r_thread_load_md;
-char g_lname[3][2];                   /* names of the pool looms (what loom->id points to) */
+unsigned g_lib_ok;                    /* successful loom_init_begin calls */
+char g_lname[3][G1_NB];               /* names of the pool looms (what loom->id points to) */
 int loom_init_begin(struct loom *loom, const char *name)
 {
 	g1_rec(&r_loom_init_begin, loom, name, 0);
 	if (g1_may_fail()) return -1;
+	g_lib_ok++;
 	/* the id is the name (the real one points id at loom->name; the copy lives in a small
 	 * ghost buffer per pool object: writing the 4 KB name array through a merged pointer
 	 * costs 3.7 M variables) */
 	char *nm = loom == LOOM(0) ? g_lname[0] : loom == LOOM(1) ? g_lname[1] : g_lname[2];
-	nm[0] = name[0]; nm[1] = name[0] == '\0' ? '\0' : name[1];
+	nm[0] = name[0]; nm[1] = nm[0] == '\0' ? '\0' : name[1]; nm[2] = '\0'; nm[3] = '\0';
+#if G1_NLEN >= 2
+	nm[2] = nm[1] == '\0' ? '\0' : name[2];
+	__CPROVER_assert(nm[2] == '\0' || name[3] == '\0', "G1 bound: loom names of <= 3 characters");
+#else
+	__CPROVER_assert(nm[1] == '\0', "G1 bound: loom names of 1 character");
+#endif
 	loom->id = nm; loom->next = NULL; loom->prev = NULL; loom->clock_offset = 0; loom->procs = NULL;
 	return 0;
 }
-int loom_load_metadata(struct loom *loom, struct stream *s) { g1_rec(&r_loom_load_md, loom, s, 0); return g1_may_fail(); }
+/* the real one merges the stream's CPU list into the loom: afterwards the loom has any number of CPUs */
+static char g1_opaque_cpus;
+int loom_load_metadata(struct loom *loom, struct stream *s)
+{
+	g1_rec(&r_loom_load_md, loom, s, 0);
+	if (g1_may_fail()) return -1;
+	loom->ncpus = nondet_size_t(); loom->max_ncpus = nondet_size_t(); loom->max_phyid = nondet_size_t();
+	loom->cpus = loom->ncpus == 0 ? NULL : (struct cpu *) &g1_opaque_cpus;
+	return 0;
+}
 struct { struct loom *loom; int pid; struct proc *proc; } g_ptab[4]; unsigned g_ptab_n;
 struct proc *loom_find_proc(struct loom *loom, int pid)
 {
@@ -337,7 +374,7 @@ int stream_clkoff_set(struct stream *s, int64_t off) { g1_rec(&r_clkoff_set, s, 
 
 static void g1_reset(void)
 {
-	g_seq = 0; g_fail = 0; g_err = 0; g_warn = 0; g_nl = 0; g_np = 0; g_nt = 0; g_calloc_n = 0; g_ptab_n = 0; g_ttab_n = 0;
+	g_seq = 0; g_fail = 0; g_lib_ok = 0; g_err = 0; g_warn = 0; g_nl = 0; g_np = 0; g_nt = 0; g_calloc_n = 0; g_ptab_n = 0; g_ttab_n = 0;
 	r_loom_name.n = r_get_pid.n = r_get_tid.n = r_data_set.n = 0;
 	r_loom_init_begin.n = r_loom_load_md.n = r_loom_find_proc.n = r_loom_add_proc.n = 0;
 	r_proc_init_begin.n = r_proc_load_md.n = r_proc_find_thread.n = r_proc_add_thread.n = 0;
@@ -349,7 +386,7 @@ static void g1_any_streams(void)
 {
 	for (int i = 0; i < 3; i++) {
 		g_s_meta[i] = nondet_bool(); int p = nondet_int(); __CPROVER_assume(p >= 0 && p <= 3); g_s_part[i] = p;
-		g_s_hasname[i] = nondet_bool(); char c = nondet_char(); __CPROVER_assume(c != '\0'); g_s_name[i][0] = c; g_s_name[i][1] = '\0';
+		g_s_hasname[i] = nondet_bool(); g1_any_name(g_s_name[i], 0);
 		g_s_pid[i] = nondet_int(); g_s_tid[i] = nondet_int();
 		STREAM(i)->data = NULL;
 	}
@@ -374,6 +411,8 @@ void h_system_get_lpt(void)
 
 /* ------------------------------- find_loom ------------------------------- */
 #ifdef H_FIND_LOOM
+/* A loom is found by equality of its WHOLE name: <= 3 looms with arbitrary names of 0..3 characters (so names that
+ * share a prefix, and names that are a prefix of the name looked up, occur), any name looked up. */
 void h_find_loom(void)
 {
 	static struct system sys;
@@ -381,20 +420,23 @@ void h_find_loom(void)
 	int n = nondet_int(); __CPROVER_assume(n >= 0 && n <= 3);
 	for (int k = 0; k < 3; k++) {
 		struct loom *l = LOOM(k);
-		char c = nondet_char(); g_lname[k][0] = c; g_lname[k][1] = '\0'; l->id = g_lname[k];
+		g1_any_name(g_lname[k], 1); l->id = g_lname[k];
 		l->next = (k + 1 < n) ? LOOM(k + 1) : NULL;
 	}
 	sys.looms = n > 0 ? LOOM(0) : NULL;
-	char id[2]; id[1] = '\0';
+	char id[G1_NB]; g1_any_name(id, 1);
 	int first = -1;
-	for (int k = 2; k >= 0; k--) if (k < n && g_lname[k][0] == id[0]) first = k;
+	for (int k = 2; k >= 0; k--) if (k < n && NAME_EQ(g_lname[k], id)) first = k;
 	struct loom *r = find_loom(&sys, id);
-	VASSERT((r == NULL) == (first < 0), "NULL exactly when no loom has that name");
+	VASSERT((r == NULL) == (first < 0), "NULL exactly when no loom has that name (the whole name)");
 	VASSERT(first < 0 || r == LOOM(first), "the loom with that name is found");
 	if (n == 3 && first == 2) REACH("third loom found");
 	if (n == 3 && first == 0) REACH("first loom found");
 	if (n == 2 && first < 0) REACH("unknown name");
 	if (n == 0) REACH("no looms yet");
+	if (n == 3 && first == 2 && g_lname[0][0] == id[0] && g_lname[1][0] == id[0] && g_lname[1][1] == id[1] && id[2] != '\0') REACH("third loom found behind two looms whose names share a prefix with it");
+	if (n >= 1 && first < 0 && g_lname[0][0] == id[0] && g_lname[0][1] == id[1] && id[1] != '\0' && id[2] == '\0' && g_lname[0][2] != '\0') REACH("the name looked up is a proper prefix of a loom name: not found");
+	if (n >= 1 && first < 0 && g_lname[0][0] == id[0] && g_lname[0][1] == '\0' && id[1] != '\0') REACH("a loom name is a proper prefix of the name looked up: not found");
 }
 #endif
 
@@ -473,24 +515,46 @@ void h_create_proc(void)
 
 /* ------------------------------- create_loom ------------------------------- */
 #ifdef H_CREATE_LOOM
+static char g1_opaque_procs, g1_opaque_arr;
+/* a loom that earlier streams built: every field create_loom has no business reading is arbitrary (in particular it
+ * already has any number of CPUs and processes) */
+static void g1_any_loom_state(struct loom *l)
+{
+	l->ncpus = nondet_size_t(); l->max_ncpus = nondet_size_t(); l->max_phyid = nondet_size_t(); l->offset_ncpus = nondet_size_t();
+	l->nprocs = nondet_size_t(); l->rank_enabled = nondet_int(); l->rank_min = nondet_int(); l->is_init = nondet_int();
+	l->gindex = nondet_long(); l->clock_offset = nondet_long();
+	l->cpus = nondet_bool() ? NULL : (struct cpu *) &g1_opaque_cpus;
+	l->cpus_array = nondet_bool() ? NULL : (struct cpu **) &g1_opaque_arr;
+	l->procs = nondet_bool() ? NULL : (struct proc *) &g1_opaque_procs;
+}
 void h_create_loom(void)
 {
 	static struct system sys;
 	g1_reset(); g1_any_streams();
 	struct stream *s = STREAM(0);
-	/* the system already has 0..2 looms (objects L1, L2) with arbitrary one-character names */
+	/* the system already has 0..2 looms (objects L1, L2) with arbitrary names of 0..3 characters, in any state */
 	int n = nondet_int(); __CPROVER_assume(n >= 0 && n <= 2);
 	struct loom *a = LOOM(1), *b = LOOM(2);
-	g_lname[1][0] = nondet_char(); g_lname[1][1] = '\0'; a->id = g_lname[1]; g_lname[2][0] = nondet_char(); g_lname[2][1] = '\0'; b->id = g_lname[2];
-	__CPROVER_assume(n < 2 || a->id[0] != b->id[0]);        /* names are unique (invariant of this function) */
+	g1_any_name(g_lname[1], 1); a->id = g_lname[1]; g1_any_name(g_lname[2], 1); b->id = g_lname[2];
+	__CPROVER_assume(n < 2 || !NAME_EQ(g_lname[1], g_lname[2]));        /* names are unique (invariant of this function) */
+	g1_any_loom_state(a); g1_any_loom_state(b);
 	a->next = n == 2 ? b : NULL; b->next = NULL; a->prev = n == 2 ? b : a; b->prev = a;
 	sys.looms = n > 0 ? a : NULL; sys.nlooms = (size_t) n;
-	char c = g_s_name[0][0];
-	int known = (n >= 1 && a->id[0] == c) ? 1 : (n == 2 && b->id[0] == c) ? 2 : 0;
+	const char *c = g_s_name[0];
+	int known = (n >= 1 && NAME_EQ(g_lname[1], c)) ? 1 : (n == 2 && NAME_EQ(g_lname[2], c)) ? 2 : 0;
+	int a_had_cpus = a->ncpus > 0;
 	struct loom *l = create_loom(&sys, s);
-	VASSERT((l != NULL) == (g_s_hasname[0] && g_fail == 0), "a loom is found or created exactly when the stream names its loom (and nothing below fails)");
+	VASSERT((l != NULL) == (g_s_hasname[0] && g_fail == 0), "a loom is found or created exactly when the stream names its loom and nothing below fails (in particular: a failed metadata merge is propagated)");
 	VASSERT(l != NULL || g_err > 0, "a refusal is diagnosed");
 	VASSERT(r_loom_name.n == 1 && CALL_IS(r_loom_name, 0, s, NULL, 0), "the loom name comes from this stream");
+	/* C15: the loom's CPU list is the union of what ALL its streams declare: EVERY stream that names a loom has its
+	 * metadata merged into THAT loom -- whether the loom is new or was built by earlier streams, whatever it holds
+	 * already -- unless the loom could not be found/created; nothing is merged into any other loom */
+	VASSERT(r_loom_load_md.n <= 1, "at most one metadata merge per stream");
+	if (g_s_hasname[0] && known) VASSERT(r_loom_load_md.n == 1 && CALL_IS(r_loom_load_md, 0, known == 1 ? a : b, s, 0), "a stream of an EXISTING loom always has its metadata merged into that loom");
+	if (g_s_hasname[0] && !known) VASSERT(r_loom_load_md.n == g_lib_ok && (g_lib_ok == 0 || CALL_IS(r_loom_load_md, 0, LOOM(0), s, 0)), "the first stream of a NEW loom has its metadata merged into it as soon as the loom is initialised");
+	if (!g_s_hasname[0]) VASSERT(r_loom_load_md.n == 0, "no loom name: nothing merged");
+	if (r_loom_load_md.n == 1) VASSERT(r_loom_load_md.b[0] == s && r_loom_load_md.a[0] == (known == 1 ? a : known == 2 ? b : LOOM(0)), "never merged into another loom");
 	if (l != NULL) {
 		if (known) {
 			VASSERT(l == (known == 1 ? a : b) && g_nl == 0 && r_loom_init_begin.n == 0 && sys.nlooms == (size_t) n, "a known name: the existing loom, nothing created");
@@ -500,16 +564,20 @@ void h_create_loom(void)
 			VASSERT(n == 0 ? (sys.looms == l && l->prev == l) : (sys.looms == a && (n == 1 ? a : b)->next == l && a->prev == l), "appended at the END of the loom list");
 			VASSERT(l->next == NULL, "list terminated");
 		}
-		VASSERT(l->id[0] == c, "the loom has the stream's loom name");
+		VASSERT(NAME_EQ(l->id, c), "the loom has the stream's loom name (the whole name)");
 		VASSERT(r_loom_load_md.n == 1 && CALL_IS(r_loom_load_md, 0, l, s, 0), "the stream's metadata (CPU list) is merged into the loom, new or not");
 		VASSERT(known || r_loom_init_begin.seq[0] < r_loom_load_md.seq[0], "after its creation");
 		if (known == 2) REACH("second existing loom found");
 		if (!known && n == 2) REACH("third loom appended");
 		if (!known && n == 0) REACH("first loom");
+		if (known == 2 && g_lname[1][0] == c[0] && g_lname[1][1] == c[1] && c[1] != '\0') REACH("existing loom found behind a loom whose name shares a 2-character prefix");
+		if (!known && n == 2 && g_lname[1][0] == c[0] && g_lname[2][0] == c[0]) REACH("new loom although two looms share its first character");
+		if (known == 1 && a_had_cpus) REACH("metadata merged into an existing loom that already has CPUs");
 	} else {
 		VASSERT(sys.nlooms == (size_t) n || (!known && sys.nlooms == (size_t) n + 1), "a refusal does not lose looms");
 		if (!g_s_hasname[0]) REACH("stream without loom name refused");
 		if (g_s_hasname[0] && known && g_fail == 1) REACH("metadata merge failure on an existing loom reported");
+		if (g_s_hasname[0] && !known && g_fail == 1 && r_loom_load_md.n == 1) REACH("metadata merge failure on a new loom reported");
 	}
 }
 #endif
